@@ -6,11 +6,11 @@
 (* rules on call arguments and on the dial target (C13).                         *)
 EXTENDS TraceCommon, FiniteSets, Integers
 
-VARIABLES sess, closing, announced, brecv, bsent, crecv, bclosed, sawClose, ans, l
+VARIABLES sess, closing, announced, brecv, bsent, crecv, bclosed, sawClose, polls, ans, l
 Sids == FieldSet("WsOpened", "sid")
 O == INSTANCE WsShimObs WITH Sess <- Sids, osess <- sess, oclosing <- closing, oann <- announced, obrecv <- brecv,
-                              obsent <- bsent, ocrecv <- crecv, obclosed <- bclosed, osaw <- sawClose, oans <- ans
-svars == <<sess, closing, announced, brecv, bsent, crecv, bclosed, sawClose, ans>>
+                              obsent <- bsent, ocrecv <- crecv, obclosed <- bclosed, osaw <- sawClose, opolls <- polls, oans <- ans
+svars == <<sess, closing, announced, brecv, bsent, crecv, bclosed, sawClose, polls, ans>>
 Is(e) == l <= TLen /\ Trace[l].ev = e
 E == Trace[l]
 Step == l' = l + 1 /\ Mark(l)
@@ -19,7 +19,7 @@ Same == UNCHANGED svars
 TInit == O!OInitWith("none") /\ l = 1 /\ HWMInit
 TReset == Is("Reset") /\ sess' = [s \in Sids |-> "none"] /\ closing' = [s \in Sids |-> FALSE]
           /\ announced' = [s \in Sids |-> 0] /\ brecv' = announced' /\ bsent' = announced' /\ crecv' = announced'
-          /\ bclosed' = closing' /\ sawClose' = closing' /\ ans' = <<"none", 0>>
+          /\ bclosed' = closing' /\ sawClose' = closing' /\ polls' = announced' /\ ans' = <<"none", 0>>
                /\ Step
 
 Live(s) == s \in Sids /\ sess[s] = "open"
@@ -32,6 +32,8 @@ TOpenFailed == Is("WsOpenFailed") /\ Same /\ O!OkStatus(E.status) /\ E.status # 
                /\ Step
 \* the harness is about to post client messages number from..to (one data post outstanding at a time)
 TDataBegin == Is("DataBegin") /\ Live(E.sid) /\ O!ODataBegin(E.sid, E.from, E.to)
+               /\ Step
+TPollBegin == Is("PollBegin") /\ E.sid \in Sids /\ O!OPollBegin(E.sid)
                /\ Step
 TCloseBegin == Is("CloseBegin") /\ E.sid \in Sids /\ O!OCloseBegin(E.sid)
                /\ Step
@@ -49,10 +51,10 @@ TBackendSawClose == Is("BackendSawClose") /\ E.sid \in Sids /\ O!OBackendSawClos
 \* everything the backend had sent was delivered); unknown, closed and malformed arguments are rejected with 400
 TCallOnSession == Is("Call") /\ E.arg \in {"valid", "valid-refused"} /\ E.sid \in Sids
          /\ (E.kind = "data" /\ E.status = 200 => Live(E.sid))
-         /\ (E.kind = "poll" /\ E.status = 200 => E.same)
+         /\ (E.kind = "poll" /\ E.status = 200 => E.same /\ E.first = crecv[E.sid] + 1)     \* (one poller: the next ones, in order)
          /\ (E.kind = "poll" /\ E.status = 400 => (bclosed[E.sid] \/ sess[E.sid] = "closed") /\ crecv[E.sid] = bsent[E.sid])  \* (sequential caller)
-         /\ (IF E.kind = "poll" /\ E.status = 200 THEN O!OAnswer(E.sid, "poll", 200, E.first, E.count)
-                                                   ELSE O!OAnswer(E.sid, E.kind, E.status, 0, 0))
+         /\ (IF E.kind = "poll" /\ E.status = 200 THEN O!OAnswer(E.sid, "poll", 200, E.count)
+                                                   ELSE O!OAnswer(E.sid, E.kind, E.status, 0))
                /\ Step
 \* a data call carrying a message of an unsupported JSON shape: answered, whatever the status; nothing of it may
 \* reach the backend (any BackendRecv must be the next numbered message) and the session stays usable
@@ -72,7 +74,7 @@ TDial == Is("OpenCase") /\ Same /\ O!OkStatus(E.status)
                /\ Step
 TOther == (Is("WsStore") \/ Is("WsDelete") \/ Is("BackendRecvEmpty")) /\ Same
                /\ Step
-TNext == TReset \/ TOpened \/ TOpenFailed \/ TDataBegin \/ TCloseBegin \/ TBackendRecv \/ TBackendSend \/ TBackendClose
+TNext == TReset \/ TOpened \/ TOpenFailed \/ TDataBegin \/ TPollBegin \/ TCloseBegin \/ TBackendRecv \/ TBackendSend \/ TBackendClose
          \/ TBackendSawClose \/ TCallOnSession \/ TCallShaped \/ TCallRejected \/ TFinal \/ TDial \/ TOther
 TSpec == TInit /\ [][TNext]_<<svars, l>>
 =============================================================================
